@@ -282,6 +282,39 @@ func TestGrid(t *testing.T) {
 			}
 		}
 	}
+	if shard == 0 {
+		// numbers of checkpoints around every power of two up to 512 (select index lengths that
+		// coincide with capacity steps of a growing or pooled buffer): 32*c ones, c = 2^k + d
+		for k := 0; k <= 9; k++ {
+			for d := -1; d <= 1; d++ {
+				c := 1<<uint(k) + d
+				if c <= 0 {
+					continue
+				}
+				for style := 0; style < 2; style++ {
+					var w vk.Words
+					onesLeft := 32 * c
+					for i := 0; onesLeft > 0; i++ {
+						x := ^uint64(0)
+						if style == 1 {
+							x = vk.Mix(uint64(c)*31+uint64(i)) | 1
+						}
+						if cnt := model.WordCount(x); cnt > onesLeft {
+							for b := 63; cnt > onesLeft; b-- {
+								if x>>uint(b)&1 == 1 {
+									x &^= 1 << uint(b)
+									cnt--
+								}
+							}
+						}
+						onesLeft -= model.WordCount(x)
+						w = append(w, x)
+					}
+					checker.Run(t, Case{Words: w, Style: "grid-pow2-checkpoints"})
+				}
+			}
+		}
+	}
 	if shard == 0 { // a few very large bitmaps in every run
 		for style := 0; style <= 5; style++ {
 			for _, n := range []int{65536, 70001} {
